@@ -11,6 +11,6 @@ git apply "$D/patch.diff" || { echo "patch does not apply"; exit 2; }
 mkdir -p out/1; cp "$D"/*.py out/1/ 2>/dev/null; cp "$D"/*.py out/ 2>/dev/null   # demos may use paths relative to WT/out/n
 /venv/bin/python -m pytest -q -p no:cacheprovider test 2>&1 | tail -n 1
 PYTHONPATH=$WT timeout 300 /venv/bin/python out/1/demo.py >/dev/null 2>&1; echo "demo exit with patch: $?"
-(cd /verif && CANOPEN_REPO=$WT harness/vcheck run $P --tier $T | tail -n 3 | cut -c1-240)
+(cd /verif && VERIF_SEED_EVIDENCE_DIR=/tmp/seed-evidence CANOPEN_REPO=$WT harness/vcheck run $P --tier $T | tail -n 3 | cut -c1-240)
 git checkout -- .
 PYTHONPATH=$WT timeout 300 /venv/bin/python out/1/demo.py >/dev/null 2>&1; echo "demo exit without patch: $?"
